@@ -24,7 +24,9 @@ Inductive case :=
    per operation, the callbacks that STARTED during it and the result *)
 | CGated (n i : Z) (hold : list Z) (ops : list gop) (obs : list (fired * res))
 (* free-running goroutines: stamped calls (all accepted) and ticks with their callbacks *)
-| CFree (n i : Z) (ops : list ev) (ticks : list tk).
+| CFree (n i : Z) (ops : list ev) (ticks : list tk)
+(* two wheels side by side: each one's history, the other's operations replaced by a no-op *)
+| CBoth (a b : case).
 
 Definition canon (fs : list fired) : list fired := map sort_pairs fs.
 
@@ -126,7 +128,7 @@ Definition segs_in_scope (i : Z) (segs : list (list op * fired * list Z)) : bool
   forallb (fun s => trace_in_scope i (fst (fst s))) segs.
 
 (* the model reproduces exactly what the implementation did *)
-Definition agrees (c : case) : bool :=
+Fixpoint agrees (c : case) : bool :=
   match c with
   | CWheel n i ops obs =>
     list_eqb fr_eqb (arun (ainit n i) ops) obs
@@ -144,10 +146,11 @@ Definition agrees (c : case) : bool :=
   | CGated n i hold ops obs =>
     (* the pointer-level model gives the order of the callbacks inside a batch *)
     list_eqb fr_eqb (grun acstep hold (mkD (acinit n i) [] []) ops) obs
+  | CBoth a b => agrees a && agrees b
   end.
 
 (* the property, on the implementation's own observations *)
-Definition prop_ok (c : case) : bool :=
+Fixpoint prop_ok (c : case) : bool :=
   match c with
   | CWheel n i ops obs =>
     (* delays of at least one interval (or rejected): the calls return what the API over
@@ -180,9 +183,10 @@ Definition prop_ok (c : case) : bool :=
       && (if released_all hold ops
           then pairs_eqb (sort_pairs (concat ds)) (sort_pairs (concat fs)) else true)
     else true
+  | CBoth a b => prop_ok a && prop_ok b
   end.
 
-Definition model_obs (c : case) : list fired :=
+Fixpoint model_obs (c : case) : list fired :=
   match c with
   | CWheel n i ops _ => canon (map fst (arun (ainit n i) ops))
   | CNew _ _ _ _ _ _ => []
@@ -190,4 +194,5 @@ Definition model_obs (c : case) : list fired :=
   | CTrace n i segs => canon (run (init n i) (concat (map (fun s => fst (fst s)) segs)))
   | CFree n i ops ticks => canon (run (init n i) (map snd ops))
   | CGated n i hold ops _ => canon (map fst (grun astep hold (mkD (ainit n i) [] []) ops))
+  | CBoth a b => model_obs a ++ model_obs b
   end.
